@@ -33,6 +33,21 @@ def thr_z(spec):
     return int(f32_round(t * 1000000.0))
 
 
+def rederived_positional(spec, call, cu, tid):
+    """IoU metric only: the positional metric value re-derived independently as f32(IoU * max(confidence,
+    positional_min_confidence)) from the bare IoU of the two boxes and the candidate's confidence, and its scaled weight
+    (w * 1e6) as i64.  None when the harness gave no bare IoU."""
+    x = call.get("posx", {}).get((cu, tid))
+    if spec["pos_iou"] is None or x is None or x[0] is None or x[1] is None:
+        return None
+    iou = vlib.f32_bits_to_float(x[0])
+    conf = vlib.f32_bits_to_float(x[1])
+    mc = float(spec["minconf"])
+    c = mc if conf < mc else conf
+    w = f32_round(iou * c)               # the f64 product of two f32 values is exact: one rounding, as in f32 arithmetic
+    return Fraction(w), int(f32_round(w * 1000000.0))
+
+
 def coq_topts(spec):
     vis = ("(Cosine %s)" if spec["vis_cos"] else "(Euclid %s)") % q_lit(spec["vis_thr"])
     pos = "Maha" if spec["pos_iou"] is None else "(IoU %s)" % q_lit(spec["pos_iou"])
@@ -98,6 +113,7 @@ def canon_ids(case):
         call["trk"] = {g(k): dict(v, id=g(k)) for k, v in call["trk"].items()}
         call["fd"] = {(c, g(t)): v for (c, t), v in call["fd"].items()}
         call["pos"] = {(c, g(t)): v for (c, t), v in call["pos"].items()}
+        call["posx"] = {(c, g(t)): v for (c, t), v in call.get("posx", {}).items()}
     case["end"] = {g(k): dict(v, id=g(k)) for k, v in case["end"].items()}
     case["wasted"] = {g(k): dict(v, id=g(k)) for k, v in case["wasted"].items()}
     return case
@@ -308,7 +324,16 @@ def oracle_case(case):
                 if not lst:
                     continue
                 wb, z = lst[0]
-                if spec["pos_iou"] is not None and f32_bits_to_fraction(wb) < spec["pos_iou"]:
+                w = f32_bits_to_fraction(wb)
+                rd = rederived_positional(spec, call, d["uid"], tid)
+                if rd is not None:
+                    # the gate and the weight come from the independent re-derivation (confidence raised to the minimum, as in SORT)
+                    stats["positional_rederived"] += 1
+                    if (rd[0], rd[1]) != (w, z):
+                        fails.append(("positional-metric-value", ci, "detection %d / track %d: positional metric %.6f (weight %d), but IoU x max(confidence, positional_min_confidence) = %.6f (weight %d); IoU %.6f, confidence %.4f, minimal confidence %.2f" % (
+                            d["uid"], tid, float(w), z, float(rd[0]), rd[1], vlib.f32_bits_to_float(call["posx"][(d["uid"], tid)][0]), vlib.f32_bits_to_float(call["posx"][(d["uid"], tid)][1]), float(spec["minconf"]))))
+                    w, z = rd
+                if spec["pos_iou"] is not None and w < spec["pos_iou"]:
                     continue
                 pairs[(d["uid"], tid)] = z
         rows = sorted({c for c, _ in pairs})
